@@ -209,5 +209,12 @@ pub fn registry() -> Vec<TypeEntry> {
     reg!(v, "T33", UnsizedList<S1>);
     reg!(v, "T34", E2);
     reg!(v, "T35", UnsizedMap<u8, E2>);
+    // multi-byte keys: numeric order and little-endian byte order differ (T09/T07/T20/T22 have 2/4-byte keys too)
+    reg!(v, "T36", Map<PackedValue<u32>, u8, u8>);
+    reg!(v, "T37", Map<PackedValue<u64>, PackedValue<u16>, u16>);
+    reg!(v, "T38", Set<PackedValue<u16>, u8>);
+    reg!(v, "T39", Set<PackedValue<u64>, u32>);
+    reg!(v, "T40", UnsizedMap<PackedValue<u64>, List<u8, u8>>);
+    reg!(v, "T41", Map<PackedValue<u16>, u8, u8>);
     v
 }
